@@ -3,6 +3,10 @@ import FrappyProofs.Lemmas.ActivateSnap
 import FrappyProofs.Lemmas.ActivateLoss
 import FrappyProofs.Lemmas.ActivateQuiet
 import FrappyProofs.Lemmas.ActivateExplicit
+import FrappyProofs.Lemmas.ActivateTables
+import FrappyProofs.Lemmas.ActivateMatch
+import FrappyProofs.Lemmas.ActivateLossExplicit
+import FrappyProofs.Lemmas.ActivateExported
 import FrappyModel.Generated.C08
 /-
 C08 — property theorems (nothing but property theorems and their non-vacuity examples).
@@ -55,6 +59,46 @@ theorem silent_after_deactivate_explicit (cfg : Cfg) (hs : Conn → List Req) (u
     (cache : Mod → Par → Entry) (σ : State) (h : Reach cfg (init hs us cache) σ) : SilentExplicit σ.trace :=
   (silent_iff_explicit σ.trace).1 (silent_after_deactivate cfg hs us cache σ h)
 
+/-- Replies answer requests: in every reachable trace a request marker of a connection appears only when none of its
+requests is open, and a reply to it carries the request whose marker is the last one of that connection. -/
+theorem replies_match (cfg : Cfg) (hs : Conn → List Req) (us : Nat → List (Mod × Par × Entry))
+    (cache : Mod → Par → Entry) (σ : State) (h : Reach cfg (init hs us cache) σ) : RepliesMatch σ.trace :=
+  (matchInv_reach cfg hs us cache σ h).acc
+
+/-- `snapshot_complete` without the monitor (`SnapshotExplicitS`, the index form of the English sentence): every update
+delivered at position `i` carries the value the cache holds after the first `i` events; and an `active` reply to
+`activate s` of connection `c` at position `i` has its request marker at some `j < i`, no other marker of `c` and no reply to
+`c` in between, and for every exported parameter of scope `s` an update delivered to `c` strictly between `j` and `i`. -/
+theorem snapshot_complete_explicit (cfg : Cfg) (hs : Conn → List Req) (us : Nat → List (Mod × Par × Entry))
+    (cache : Mod → Par → Entry) (σ : State) (h : Reach cfg (init hs us cache) σ) :
+    SnapshotExplicitS cfg cache σ.trace :=
+  snapshotExplicitS cfg cache σ.trace (snapshot_complete cfg hs us cache σ h) (replies_match cfg hs us cache σ h)
+
+/-- what the monitor accepts is what the sentence says, for any trace (model or implementation): the index form with the
+scope taken from the marker (`SnapshotExplicit`) follows from `SnapshotComplete` alone -/
+theorem snapshot_monitor_sound (cfg : Cfg) (cache : Mod → Par → Entry) (tr : List Obs)
+    (h : SnapshotComplete cfg cache tr) : SnapshotExplicit cfg cache tr :=
+  snapshotExplicit_of_complete cfg cache tr h
+
+/-- `no_loss` without the monitor (`NoLossExplicit`, the index form of the English sentence): a value stored by updater `u`
+at position `i` whose assignment returns at position `j` has been delivered, strictly between `i` and `j`, to every
+connection `c` of the node for which `m:p` was firmly covered when the value was stored and still was after each request
+marker of `c` up to `j`.  "Firmly covered" is `firmAfter`, which `firm_in_force_explicit` spells out. -/
+theorem no_loss_explicit (cfg : Cfg) (hs : Conn → List Req) (us : Nat → List (Mod × Par × Entry))
+    (cache : Mod → Par → Entry) (σ : State) (h : Reach cfg (init hs us cache) σ) : NoLossExplicit cfg σ.trace :=
+  noLossExplicit_of_noLoss cfg σ.trace (no_loss cfg hs us cache σ h)
+
+/-- what `lossMon` accepts is what the sentence says, for any trace (model or implementation) -/
+theorem noloss_monitor_sound (cfg : Cfg) (tr : List Obs) (h : NoLoss cfg tr) : NoLossExplicit cfg tr :=
+  noLossExplicit_of_noLoss cfg tr h
+
+/-- an activation `s` of `c` is firmly in force after `tr` iff its `active` reply is in `tr` and no later request marker of
+`c` ends it (the matching `deactivate`, `*IDN?`, a disconnect) -/
+theorem firm_in_force_explicit (tr : List Obs) (c : Conn) (s : Scope) :
+    s ∈ firmAfter tr c ↔ ∃ j : Nat, tr[j]? = some (.reply c (.activate s) true) ∧
+      ∀ (k : Nat) (o : Obs), j < k → tr[k]? = some o → ¬ endsMarker c s o :=
+  mem_firmAfter tr c s
+
 /-- the executable quiescence test the driver uses is the `Quiet` of the specification -/
 theorem quiet_monitor_exact (tr : List Obs) : quietB tr = true ↔ Quiet tr := quietB_iff tr
 
@@ -69,6 +113,56 @@ theorem others_unaffected (cfg : Cfg) (σ σ' : State) (a : Act) : OthersUnaffec
   · rename_i k hk
     obtain ⟨_, _, _, _, f5, f6, _⟩ := stepU_frame cfg σ σ' k a.arg hs
     simp [listens, f5, f6]
+
+/-- "The scopes of other connections are unaffected", on the tables themselves: an action changes no row of
+`_active_connections` / `_subscriptions` but the one of the connection whose request thread acts.  In particular no action
+of an updater (`announceUpdate` → `broadcast_event`: listener selection and sends) changes any table entry, under any key.
+Strictly stronger than `others_unaffected`: see the example `listens_same_tables_differ` below. -/
+theorem tables_others_unaffected (cfg : Cfg) (σ σ' : State) (a : Act) : TablesFrame cfg σ σ' a :=
+  tablesFrame cfg σ σ' a
+
+/-- The same for a whole broadcast, as equations: the tables after any action of an updater are the tables before. -/
+theorem broadcast_leaves_tables (cfg : Cfg) (σ σ' : State) (k : Nat) (arg : Conn)
+    (h : step cfg σ ⟨.u k, arg⟩ = some σ') : σ'.active = σ.active ∧ σ'.subs = σ.subs := by
+  obtain ⟨_, _, _, _, f5, f6, _⟩ := stepU_frame cfg σ σ' k arg h
+  exact ⟨f5, f6⟩
+
+/-- In every reachable state every table entry — a member of `_active_connections`, a member of `_subscriptions[k]` for
+whatever string `k` — stands for an activation of that very connection which is still possibly in force: `k` is the
+specifier of a module / parameter scope the connection asked for and no reply has ended it yet.  (So what a connection
+receives never depends on entries somebody else's request or a broadcast left behind.) -/
+theorem tables_own (cfg : Cfg) (hs : Conn → List Req) (us : Nat → List (Mod × Par × Entry))
+    (cache : Mod → Par → Entry) (σ : State) (h : Reach cfg (init hs us cache) σ) : TablesOwn σ :=
+  tablesOwn_reach cfg hs us cache σ h
+
+/-- `tables_own` without the monitor state: connection `c` is entered under key `k` only if the trace contains a request
+marker `activate s` of `c` itself with `s` the module / parameter scope whose specifier is `k`, and no later reply of `c`
+ends `s`; likewise for `_active_connections` and the whole-node scope. -/
+theorem tables_own_explicit (cfg : Cfg) (hs : Conn → List Req) (us : Nat → List (Mod × Par × Entry))
+    (cache : Mod → Par → Entry) (σ : State) (h : Reach cfg (init hs us cache) σ) :
+    (∀ c, σ.active c = true → ∃ j : Nat, σ.trace[j]? = some (Obs.reqStart c (.activate .all)) ∧
+        ∀ (i : Nat) (o : Obs), j < i → σ.trace[i]? = some o → ¬ endsReply c .all o) ∧
+    (∀ k c, σ.subs k c = true → ∃ s, s ≠ Scope.all ∧ s.key = k ∧
+        ∃ j : Nat, σ.trace[j]? = some (Obs.reqStart c (.activate s)) ∧
+          ∀ (i : Nat) (o : Obs), j < i → σ.trace[i]? = some o → ¬ endsReply c s o) := by
+  obtain ⟨h1, h2⟩ := tables_own cfg hs us cache σ h
+  refine ⟨fun c hc => (mem_liveAfter' σ.trace c .all).1 (h1 c hc), ?_⟩
+  intro k c hk
+  obtain ⟨s, hs1, hs2, hs3⟩ := h2 k c hk
+  exact ⟨s, hs1, hs2, (mem_liveAfter' σ.trace c s).1 hs3⟩
+
+/-- A scope consists of exported parameters of exported modules only: whatever is activated (also the whole node) and
+whatever the updaters assign to (also parameters with `export=False` and parameters of modules that are not exported), every
+update that is ever delivered — by a snapshot or by a broadcast — is of a parameter in `cfg.pars m` of a module in `cfg.mods`. -/
+theorem only_exported (cfg : Cfg) (hs : Conn → List Req) (us : Nat → List (Mod × Par × Entry))
+    (cache : Mod → Par → Entry) (σ : State) (h : Reach cfg (init hs us cache) σ) :
+    ∀ c m p e, Obs.deliver c m p e ∈ σ.trace → m ∈ cfg.mods ∧ p ∈ cfg.pars m :=
+  (onlyExported_iff cfg σ.trace).1 (expInv_reach cfg hs us cache σ h).tr
+
+/-- the Boolean form the driver evaluates on implementation traces is that statement -/
+theorem only_exported_monitor_exact (cfg : Cfg) (tr : List Obs) :
+    OnlyExported cfg tr ↔ ∀ c m p e, Obs.deliver c m p e ∈ tr → m ∈ cfg.mods ∧ p ∈ cfg.pars m :=
+  onlyExported_iff cfg tr
 
 /-- The lock discipline of the repaired code (`_lock` → `updateLock` → `_subscription_lock`) cannot
 deadlock: in no reachable state with an unfinished thread is every thread blocked. -/
@@ -125,7 +219,7 @@ def mT2 : Mod := ⟨['T', '2'], by decide⟩
 def pTarget : Par := ['t', 'a', 'r', 'g', 'e', 't']
 def pTargetMax : Par := pTarget ++ ['_', 'm', 'a', 'x']
 
-def exCfg : Cfg := ⟨[mT, mT2], fun _ => [pTarget, pTargetMax], [1], fun _ => false⟩
+def exCfg : Cfg := ⟨[mT, mT2], fun _ => [pTarget, pTargetMax], [1], fun _ => false, fun _ _ => false⟩
 def exInit : State :=
   init (fun c => if c = 1 then [.activate (.par mT pTarget), .deactivate (.par mT pTarget)] else [])
        (fun k => if k = 1 then [(mT, pTarget, .val 7), (mT, pTarget, .val 5)] else []) (fun _ _ => .val 0)
@@ -171,6 +265,27 @@ example : ((run exCfg exInit2 exActs2).map (fun σ =>
        finished σ (.h 1), finished σ (.u 1), σ.trace.length))) =
     some (true, true, some (.val 7), .val 7, true, true, 6) := by rfl
 
+/-- `snapshot_complete_explicit` / `replies_match` are about something: the reachable trace of `exActs2` has an `active`
+reply at position 2 (marker at 0, the snapshot item at 1) and a broadcast delivery at position 4 -/
+example : ((run exCfg exInit2 exActs2).map (fun σ => (σ.trace[0]?, σ.trace[1]?, σ.trace[2]?, σ.trace[4]?,
+      matchMon.accepts σ.trace, (snapMon exCfg (fun _ _ => .val 0)).accepts σ.trace))) =
+    some (some (.reqStart 1 (.activate (.par mT pTarget))), some (.deliver 1 mT pTarget (.val 0)),
+          some (.reply 1 (.activate (.par mT pTarget)) true), some (.deliver 1 mT pTarget (.val 7)), true, true) := by rfl
+
+/-- `no_loss_explicit` is about something: in the same trace the store is at position 3, the return at 5, connection 1 is
+firmly covered at the store, and the delivery is at position 4 -/
+example : ((run exCfg exInit2 exActs2).map (fun σ => (σ.trace[3]?, σ.trace[4]?, σ.trace[5]?,
+      coveredBy (firmAfter (σ.trace.take 3) 1) mT pTarget, (lossMon exCfg).accepts σ.trace))) =
+    some (some (.emit 1 mT pTarget (.val 7)), some (.deliver 1 mT pTarget (.val 7)), some (.emitDone 1), true, true) := by rfl
+
+/-- the loss monitor is not trivially true: the same trace without the delivery is rejected -/
+example : (lossMon exCfg).accepts
+    [.reqStart 1 (.activate (.par mT pTarget)), .deliver 1 mT pTarget (.val 0), .reply 1 (.activate (.par mT pTarget)) true,
+     .emit 1 mT pTarget (.val 7), .emitDone 1] = false := by rfl
+
+/-- the match monitor is not trivially true: a reply that answers another request than the open one is rejected -/
+example : matchMon.accepts [.reqStart 1 (.activate .all), .reply 1 (.deactivate .all) true] = false := by decide
+
 /-- prefix-related parameters: connection 1 activates `T:target` and `T:target_max`, deactivates `T:target`; an update
 of `T:target_max` emitted afterwards still reaches it (the seeded `startswith(eventname)` mutant loses it) -/
 def exInit3 : State :=
@@ -185,7 +300,7 @@ example : ((run exCfg exInit3 ((List.replicate 26 (⟨.h 1, 0⟩ : Act)) ++
 
 /-- remote logging broken: `*IDN?` is answered with an error report, the activation is gone all the same and the update
 emitted afterwards is not delivered -/
-def exCfgBroken : Cfg := ⟨[mT], fun _ => [pTarget], [1], fun _ => true⟩
+def exCfgBroken : Cfg := ⟨[mT], fun _ => [pTarget], [1], fun _ => true, fun _ _ => false⟩
 def exInit4 : State :=
   init (fun c => if c = 1 then [.activate .all, .ident] else [])
        (fun k => if k = 1 then [(mT, pTarget, .val 3)] else []) (fun _ _ => .val 0)
@@ -194,6 +309,84 @@ example : ((run exCfgBroken exInit4 ((List.replicate 16 (⟨.h 1, 0⟩ : Act)) +
       [⟨.u 1, 0⟩, ⟨.u 1, 0⟩, ⟨.u 1, 0⟩, ⟨.u 1, 0⟩, ⟨.u 1, 0⟩, ⟨.h 1, 0⟩])).map (fun σ =>
       (σ.trace.drop 3, listens σ 1 mT pTarget, finished σ (.h 1), finished σ (.u 1)))) =
     some ([.reqStart 1 .ident, .reply 1 .ident false, .emit 1 mT pTarget (.val 3), .emitDone 1], false, true, true) := by rfl
+
+/-- two connections: 1 activates `T:target`, 2 activates the whole node, an update of `T:target` goes to both, 2 deactivates,
+the next update goes to 1 only — and between the two the broadcast has left no entry for 2 under `T:target`
+(what the seeded in-place `listeners |= …` does) -/
+def exCfg2 : Cfg := ⟨[mT], fun _ => [pTarget], [1, 2], fun _ => false, fun _ _ => false⟩
+def exInit5 : State :=
+  init (fun c => if c = 1 then [.activate (.par mT pTarget)] else if c = 2 then [.activate .all, .deactivate .all] else [])
+       (fun k => if k = 1 then [(mT, pTarget, .val 1), (mT, pTarget, .val 5)] else []) (fun _ _ => .val 0)
+
+def exActs5a : List Act :=
+  List.replicate 10 ⟨.h 1, 0⟩ ++ List.replicate 10 ⟨.h 2, 0⟩ ++ [⟨.u 1, 0⟩, ⟨.u 1, 0⟩, ⟨.u 1, 1⟩, ⟨.u 1, 2⟩, ⟨.u 1, 0⟩, ⟨.u 1, 0⟩]
+def exActs5b : List Act :=
+  List.replicate 6 ⟨.h 2, 0⟩ ++ [⟨.u 1, 0⟩, ⟨.u 1, 0⟩, ⟨.u 1, 1⟩, ⟨.u 1, 0⟩, ⟨.u 1, 0⟩]
+
+/-- after the first broadcast (both connections were sent the value): the tables hold exactly the two own entries -/
+example : ((run exCfg2 exInit5 exActs5a).map (fun σ =>
+      (σ.subs (pkey mT pTarget) 1, σ.subs (pkey mT pTarget) 2, σ.active 1, σ.active 2,
+       lastDelivered σ.trace 1 mT pTarget, lastDelivered σ.trace 2 mT pTarget))) =
+    some (true, false, false, true, some (.val 1), some (.val 1)) := by rfl
+
+/-- after the global `deactivate` of 2 and the second assignment: 1 holds 5, 2 still holds 1 -/
+example : ((run exCfg2 exInit5 (exActs5a ++ exActs5b)).map (fun σ =>
+      (σ.subs (pkey mT pTarget) 1, σ.subs (pkey mT pTarget) 2, σ.active 2,
+       lastDelivered σ.trace 1 mT pTarget, lastDelivered σ.trace 2 mT pTarget, σ.cache mT pTarget, quietB σ.trace))) =
+    some (true, false, false, some (.val 5), some (.val 1), .val 5, true) := by rfl
+
+/-- `tables_own` is about something: a reachable state with entries in both tables -/
+example : ∃ σ, Reach exCfg2 exInit5 σ ∧ σ.active 2 = true ∧ σ.subs (pkey mT pTarget) 1 = true ∧
+    Scope.all ∈ liveAfter σ.trace 2 ∧ Scope.par mT pTarget ∈ liveAfter σ.trace 1 := by
+  cases h : run exCfg2 exInit5 exActs5a with
+  | none => exact absurd h (by decide)
+  | some σ =>
+    have hr := run_reach exCfg2 exInit5 exInit5 σ exActs5a Reach.init h
+    have h1 : ((run exCfg2 exInit5 exActs5a).map (fun σ => (σ.active 2, σ.subs (pkey mT pTarget) 1))) = some (true, true) := by rfl
+    rw [h] at h1
+    simp only [Option.map_some, Option.some.injEq, Prod.mk.injEq] at h1
+    have hown := tables_own exCfg2 _ _ _ σ hr
+    refine ⟨σ, hr, h1.1, h1.2, hown.1 2 h1.1, ?_⟩
+    obtain ⟨s, hs1, hs2, hs3⟩ := hown.2 _ 1 h1.2
+    have : s = Scope.par mT pTarget := key_inj s (.par mT pTarget) hs1 (by simp) hs2
+    rw [this] at hs3; exact hs3
+
+/-- why the clause is stated on the tables and not only on `listens`: entering the globally active connection 2 under
+`T:target` as well (what the seeded change does during a broadcast) changes nobody's `listens` at that moment, but
+connection 2 then keeps listening after its global `deactivate` -/
+def exPolluted (σ : State) : State := subscribe σ 2 (pkey mT pTarget)
+
+example (σ : State) (h : σ.active 2 = true) :
+    (∀ c m p, listens (exPolluted σ) c m p = listens σ c m p) ∧
+    listens (unregister (exPolluted σ) 2 .all) 2 mT pTarget = true ∧
+    (σ.subs (pkey mT pTarget) 2 = false → σ.subs mT.val 2 = false → listens (unregister σ 2 .all) 2 mT pTarget = false) := by
+  refine ⟨?_, ?_, ?_⟩
+  · intro c m p
+    by_cases hc : c = 2
+    · subst hc; simp [listens, exPolluted, subscribe, h]
+    · simp [listens, exPolluted, subscribe, hc]
+  · simp [listens, exPolluted, subscribe, unregister]
+  · intro h1 h2
+    have h3 : modPart (pkey mT pTarget) = mT.val := modPart_pkey mT pTarget
+    simp [listens, unregister, h1, h2, h3]
+
+/-- `only_exported` is about something: connection 1 is active for the whole node, the updater assigns to the hidden
+parameter `#h` of `T` (not in `cfg.pars`) and to a parameter of the module `H` that is not exported: both are stored without
+any event, the exported one in between is delivered -/
+def mH : Mod := ⟨['H'], by decide⟩
+def pHidden : Par := ['#', 'h']
+def exInit6 : State :=
+  init (fun c => if c = 1 then [.activate .all] else [])
+       (fun k => if k = 1 then [(mT, pHidden, .val 4), (mT, pTarget, .val 5), (mH, pTarget, .val 6)] else []) (fun _ _ => .val 0)
+
+example : ((run exCfg2 exInit6 ((List.replicate 10 (⟨.h 1, 0⟩ : Act)) ++ [⟨.u 1, 0⟩, ⟨.u 1, 0⟩] ++
+      [⟨.u 1, 0⟩, ⟨.u 1, 0⟩, ⟨.u 1, 1⟩, ⟨.u 1, 0⟩, ⟨.u 1, 0⟩] ++ [⟨.u 1, 0⟩, ⟨.u 1, 0⟩, ⟨.u 1, 0⟩])).map (fun σ =>
+      (σ.trace.drop 3, finished σ (.u 1), σ.trace.all (exportedOk exCfg2)))) =
+    some ([.emit 1 mT pTarget (.val 5), .deliver 1 mT pTarget (.val 5), .emitDone 1], true, true) := by
+  decide +kernel
+
+/-- … and the monitor rejects a delivery of the hidden parameter -/
+example : [Obs.reqStart 1 (.activate .all), .deliver 1 mT pHidden (.val 4)].all (exportedOk exCfg2) = false := by decide +kernel
 
 /-- the monitors are not trivially true: the pinned tree's log `update 7, inactive, update 5` is rejected … -/
 example : silentMon.accepts
